@@ -4,12 +4,12 @@ import json, os, glob
 V = os.path.dirname(os.path.dirname(os.path.abspath(__file__)))
 props = [json.loads(l)["id"] for l in open(os.path.join(V, "properties.jsonl")) if l.strip()]
 checks, claimed = [], set()
-pending_path = os.path.join(V, "checks", "meta", "_pending.txt")
-pending = set(open(pending_path).read().split()) if os.path.exists(pending_path) else set()
+claimed_path = os.path.join(V, "checks", "meta", "_claimed.txt")
+listed = set(open(claimed_path).read().split())   # properties whose check the lead has verified on the unchanged tree
 for p in sorted(glob.glob(os.path.join(V, "checks", "meta", "C*.json"))):
     m = json.load(open(p))
     pid = m["property_id"]
-    if pid in pending:
+    if pid not in listed:
         continue   # machinery being built/verified; not claimed yet
     claimed.add(pid)
     m.setdefault("quick_cmd", "./check %s --tier quick" % pid)
